@@ -71,6 +71,7 @@ void colvarproxy_verif::set_natoms(int n)
 void colvarproxy_verif::log(std::string const &message)
 {
   last_log = message;
+  if (message.find("dA/dLambda=") != std::string::npos) ti_log.push_back(message);
   if (!quiet) std::cerr << "colvars: " << message;
 }
 
